@@ -84,7 +84,7 @@ func registry() []PropSpec {
 				{Pkg: pkgRefClient, Func: "H13a_q", Unwind: 24, Note: "checkGRPCStatus on grpc-status 1..16 and grpc-message = PercentEncodeMessage(m) / m itself, for every byte string m of length <=3"},
 				{Pkg: pkgRefClient, Func: "H13b_q", Unwind: 20, Note: "isValidHTTPFieldName / isValidHTTPFieldValue on every byte string of length <=2"},
 				{Pkg: pkgRefClient, Func: "H13c_q", Unwind: 24, Split: []SplitDim{{"rawlen", 0, 5}, {"lf#0", 0, 1}, {"lf#1", 0, 1}, {"lf#2", 0, 1}, {"lf#3", 0, 1}, {"lf#4", 0, 1}}, CaseNote: "case split: length and the set of LF positions (line structure); all other bytes symbolic over {a, A, colon, space, CR}", Note: "examineGRPCEndStream crash freedom on strings <=5 bytes over {a, A, colon, space, CR, LF}"},
-				{Pkg: pkgRefClient, Func: "H13d_q", Unwind: 24, JobSecs: 900, FeasSecs: 600, Note: "examineGRPCEndStream: one well-formed line (key a / b-c, value <=2 bytes over {x,y,space}) and its malformations (LF only, no final CRLF, upper-case key, missing colon, extra blank line)"},
+				{Pkg: pkgRefClient, Func: "H13d_q", Unwind: 24, JobSecs: 1500, ExecSecs: 1200, FeasSecs: 600, Note: "examineGRPCEndStream: one well-formed line (key a / b-c, value <=2 bytes over {x,y,space}) and its malformations (LF only, no final CRLF, upper-case key, missing colon, extra blank line)"},
 			},
 			Stubs: []string{"strings.Split/SplitN/Trim/ToLower, textproto.CanonicalMIMEHeaderKey (ASCII), url.PathUnescape are bounded Go models", "printer = counting stub"},
 			Out:   []string{"Connect JSON examiners (encoding/json)", "grpc-status-details-bin (base64 + protobuf)", "the reference server's own rendering of trailers"},
